@@ -84,4 +84,43 @@ def xmlDecodeText : Str → Option Str
   | '\r' :: r => (xmlDecodeText r).map ('\n' :: ·)
   | c :: r => (xmlDecodeText r).map (c :: ·)
 
+/-! ### attribute values -/
+
+/-- the entities `xml.sax.saxutils.quoteattr` adds: literal TAB / LF / CR in an attribute value
+    would be normalised to spaces by the receiving parser -/
+def attrTable : List (Char × Str) :=
+  [('\n', "&#10;".toList), ('\r', "&#13;".toList), ('\t', "&#9;".toList)]
+
+/-- `data.replace('"', "&quot;")` -/
+def replaceQuot (d : Str) : Str := d.flatMap fun c => if c = '"' then "&quot;".toList else [c]
+
+/-- `xml.sax.saxutils.quoteattr(data)`: escaped value in double quotes, or in single quotes when it
+    contains a double quote but no single quote, or with `&quot;` when it contains both -/
+def quoteattr (s : Str) : Str :=
+  let d := escape attrTable s
+  if d.contains '"' then
+    if d.contains '\'' then '"' :: replaceQuot d ++ ['"']
+    else '\'' :: d ++ ['\'']
+  else '"' :: d ++ ['"']
+
+/-- attribute value → text, as an XML 1.0 parser reports it: references expanded, literal
+    white space (TAB, LF, CR, CR LF) normalised to a space.  `none` = not well-formed. -/
+def xmlDecodeAttr : Str → Option Str
+  | [] => some []
+  | '&' :: 'a' :: 'm' :: 'p' :: ';' :: r => (xmlDecodeAttr r).map ('&' :: ·)
+  | '&' :: 'l' :: 't' :: ';' :: r => (xmlDecodeAttr r).map ('<' :: ·)
+  | '&' :: 'g' :: 't' :: ';' :: r => (xmlDecodeAttr r).map ('>' :: ·)
+  | '&' :: 'q' :: 'u' :: 'o' :: 't' :: ';' :: r => (xmlDecodeAttr r).map ('"' :: ·)
+  | '&' :: 'a' :: 'p' :: 'o' :: 's' :: ';' :: r => (xmlDecodeAttr r).map ('\'' :: ·)
+  | '&' :: '#' :: '1' :: '3' :: ';' :: r => (xmlDecodeAttr r).map ('\r' :: ·)
+  | '&' :: '#' :: '1' :: '0' :: ';' :: r => (xmlDecodeAttr r).map ('\n' :: ·)
+  | '&' :: '#' :: '9' :: ';' :: r => (xmlDecodeAttr r).map ('\t' :: ·)
+  | '&' :: _ => none
+  | '<' :: _ => none
+  | '\r' :: '\n' :: r => (xmlDecodeAttr r).map (' ' :: ·)
+  | '\r' :: r => (xmlDecodeAttr r).map (' ' :: ·)
+  | '\n' :: r => (xmlDecodeAttr r).map (' ' :: ·)
+  | '\t' :: r => (xmlDecodeAttr r).map (' ' :: ·)
+  | c :: r => (xmlDecodeAttr r).map (c :: ·)
+
 end Upnp.C06
